@@ -301,7 +301,9 @@ func checkURIAgainstRedirects(client Client, uri string) error {
 		for _, uriGlob := range globClient.RedirectURIGlobs() {
 			isMatch, err := doublestar.Match(uriGlob, uri)
 			if err != nil {
-				return oidc.ErrServerError().WithParent(err)
+				// a malformed glob must not turn into an error that is redirected to the unvalidated uri
+				return oidc.ErrInvalidRequestRedirectURI().WithParent(err).
+					WithDescription("The requested redirect_uri could not be validated against the client configuration.")
 			}
 			if isMatch {
 				return nil
